@@ -751,3 +751,20 @@ func Replay(path string) int {
 	}
 	return 1
 }
+
+// ShrinkSlice greedily removes elements (chunks first, then single elements)
+// while fails(items) stays true. fails must be deterministic.
+func ShrinkSlice[T any](items []T, fails func([]T) bool) []T {
+	cur := append([]T{}, items...)
+	for chunk := len(cur) / 2; chunk >= 1; chunk /= 2 {
+		for i := 0; i+chunk <= len(cur); {
+			try := append(append([]T{}, cur[:i]...), cur[i+chunk:]...)
+			if fails(try) {
+				cur = try
+			} else {
+				i += chunk
+			}
+		}
+	}
+	return cur
+}
